@@ -28,12 +28,13 @@ import (
 func init() {
 	register(&Prop{
 		ID: "C10", Level: "fault_enumeration",
-		Rule:        "enumerated fault plans: content length L (grid around 2048/32768/65536 and 100000-150000) x API (Set, SetReader, Create+Write+Close) x client (inline, gRPC) x fault: source reader fails at offset p in {0,1,2047,2048,2049,L/2,L-1} (error alone and (n>0,err)); gRPC: caller's context cancelled after p bytes were consumed, TCP connection cut by a harness-side proxy after p request bytes; no-space at the k-th write of a content file, full (0 bytes) or partial (j bytes really written, then ENOSPC), on 1-3 roots whose reported free space is supplied through the disk-usage hook in the patterns {faulty root has least free, faulty root has most free, all roots faulty, two faulty + one healthy with most free}; the same on a real 100 KiB tmpfs root (real ENOSPC, real partial writes) when mounting is permitted. A concurrent reader polls Get(key) during the faulty write. Oracle: error => an independent client reads the previous value (or ErrNotFound) during and after, class ErrNoFreeSpace where the statement says so; success => reads exactly the source bytes; with a healthy root reporting more free space than every faulty one the write must succeed. evaluations = plans executed; distinct_nontrivial = distinct (client, API, fault kind, offset class, root pattern, outcome) tuples",
+		Rule:        "enumerated fault plans: content length L (grid around 2048/32768/65536 and 100000-150000) x API (Set, SetReader, Create+Write+Close) x client (inline, gRPC) x fault: source reader fails at offset p in {0,1,2047,2048,2049,L/2,L-1} (error alone and (n>0,err)); gRPC: caller's context cancelled after p bytes were consumed, TCP connection cut by a harness-side proxy after p request bytes; no-space at the k-th write of a content file, full (0 bytes) or partial (j bytes really written, then ENOSPC), on 1-3 roots whose reported free space is supplied through the disk-usage hook in the patterns {faulty root has least free, faulty root has most free, all roots faulty, two faulty + one healthy with most free}; the same on a real 100 KiB tmpfs root (real ENOSPC, real partial writes) when mounting is permitted. Role grpccut repeats the cuts that hit a stream while it is being set up (first request byte, first few hundred bytes, or all connections closed from another goroutine within microseconds of the call) and the cancellations that race with the completion of the upload (context cancelled when the source is exhausted, or up to 2048 bytes earlier), hundreds of times per case: a stream the server has not seen is re-created and replayed by gRPC, so a client that completes it after a failed send stores a truncated value. A concurrent reader polls Get(key) during the faulty write. Oracle: error => an independent client reads the previous value (or ErrNotFound) during and after, class ErrNoFreeSpace where the statement says so; success => reads exactly the source bytes; with a healthy root reporting more free space than every faulty one the write must succeed. evaluations = plans executed; distinct_nontrivial = distinct (client, API, fault kind, offset class, root pattern, outcome) tuples",
 		Assumptions: []string{"hook-injected ENOSPC models real ENOSPC (cross-checked on a real tmpfs root when mounting is permitted)"},
 		Roles: map[string]Role{
 			"reader":  {N: func(t string) int { return tierN(t, 12, 64) }, Case: c10Reader},
 			"nospace": {N: func(t string) int { return tierN(t, 12, 96) }, Case: c10NoSpace},
 			"grpc":    {N: func(t string) int { return tierN(t, 8, 48) }, Case: c10Grpc},
+			"grpccut": {N: func(t string) int { return tierN(t, 16, 96) }, Case: c10GrpcCut},
 			"tmpfs":   {N: func(t string) int { return tierN(t, 2, 8) }, Case: c10Tmpfs, Procs: 2},
 		},
 	})
@@ -83,6 +84,8 @@ func offsetClass(p, l int) string {
 		return "0"
 	case p == 1:
 		return "1"
+	case p == l:
+		return "L"
 	case p == l-1:
 		return "L-1"
 	case p == l/2:
@@ -515,11 +518,16 @@ func c10Grpc(tier string, seed int64, idx int, scratch string) rt.CaseResult {
 	for _, l := range []int{2049, 40000, 150000, 400000} {
 		for _, fault := range []string{"ctx-cancel", "tcp-cut"} {
 			for _, api := range []string{"setreader", "create", "set"} {
-				for _, frac := range []int{0, 1, 2, 3} {
-					if rng.Intn(tierN(tier, 3, 1)) != 0 {
+				for _, frac := range []int{0, 1, 2, 3, 4} {
+					if frac == 4 && fault != "ctx-cancel" {
 						continue
 					}
-					off := []int{0, 2048, l / 2, l - 1}[frac]
+					if rng.Intn(tierN(tier, 3, 1)) != 0 && frac != 4 {
+						continue
+					}
+					// off == l: the caller gives up after the source is exhausted and every Write has
+					// returned, before the upload is completed (Close / the end of SetReader)
+					off := []int{0, 2048, l / 2, l - 1, l}[frac]
 					if fault == "tcp-cut" && off > l-64 {
 						// the cut must come before the last content byte can have left the client:
 						// once the server has the whole upload a lost reply is indistinguishable
@@ -648,4 +656,122 @@ func c10Tmpfs(tier string, seed int64, idx int, scratch string) rt.CaseResult {
 	}
 	c.Sample = map[string]any{"tmpfs": "100 KiB root mounted", "second_root": second}
 	return c
+}
+
+// c10GrpcCut: connection loss while the upload stream is being set up. gRPC re-creates a
+// stream that the server has not processed and replays what the client has sent so far; a
+// client that answers a failed send by completing the stream gets "OK" for a prefix. The
+// window is a race inside the transport, so the plan is repeated many times per case.
+func c10GrpcCut(tier string, seed int64, idx int, scratch string) rt.CaseResult {
+	var c rt.CaseResult
+	rt.SetWatchdogLimit(90 * time.Second)
+	env, err := dbx.Open(dbx.Options{Mode: dbx.Grpc, Dir: filepath.Join(scratch, "db"), Proxy: true})
+	if err != nil {
+		c.Violate("open-failed", err.Error(), nil)
+		return c
+	}
+	defer env.Close()
+	x := &c10Ctx{c: &c, env: env, verify: env.Direct, seed: seed}
+	rng := seqrun.Rng(seed, "C10gc", idx)
+	iters := tierN(tier, 360, 1500)
+	for n := 0; n < iters; n++ {
+		rt.Beat()
+		api := []string{"create", "setreader", "set"}[n%3]
+		key := fmt.Sprintf("k%d", n%2)
+		hadPrev := n%4 != 3
+		var prev []byte
+		if hadPrev {
+			prev = seqrun.Content(fmt.Sprintf("gc%d-p%d", idx, n), 64)
+			if err := x.verify.Set(ctxBg, key, prev); err != nil {
+				c.Violate("setup-write-failed", err.Error(), nil)
+				return c
+			}
+		} else {
+			x.verify.Delete(ctxBg, key)
+		}
+		l := []int{60000, 200000, 400000}[rng.Intn(3)]
+		src := seqrun.Content(fmt.Sprintf("gc%d-s%d", idx, n), l)
+		ctx, cancel := context.WithCancel(ctxBg)
+		fr := &faultReader{data: src, off: len(src)}
+		cut := []string{"first-byte", "first-bytes", "close-all", "cancel-at-end", "cancel-near-end"}[(n/3)%5]
+		if cut[:6] == "cancel" {
+			// the caller gives up when (almost) everything has been written: the completion of
+			// the upload races with the cancellation reaching the transport
+			l = []int{5000, 2049, 9000, 20000}[rng.Intn(4)]
+			src = seqrun.Content(fmt.Sprintf("gc%d-s%d", idx, n), l)
+			fr = &faultReader{data: src, off: l, onOffset: cancel}
+			if cut == "cancel-near-end" {
+				fr.off = l - 1 - rng.Intn(2048)
+			}
+			if api == "set" {
+				api = "create"
+			}
+		}
+		if cut == "close-all" && api == "set" {
+			api = "setreader" // Set takes no source that could be held back
+		}
+		var rd io.Reader = fr
+		var cwg sync.WaitGroup
+		switch cut {
+		case "cancel-at-end", "cancel-near-end":
+		case "first-byte":
+			env.CutAfter(1)
+		case "first-bytes":
+			env.CutAfter(int64(2 + rng.Intn(600)))
+		default:
+			// the last piece of the source is held back until the connections are closed: once the
+			// server has the whole upload, a lost reply cannot be told from a failed write
+			d := time.Duration(rng.Intn(400)) * time.Microsecond
+			done := make(chan struct{})
+			rd = &heldReader{r: fr, hold: l - 2048, release: done}
+			cwg.Add(1)
+			go func() { defer cwg.Done(); time.Sleep(d); env.CutNow(); close(done) }()
+		}
+		var allowed [][]byte
+		if hadPrev {
+			allowed = [][]byte{prev}
+		}
+		allowed = append(allowed, src)
+		pl := startPoller(x.verify, key, allowed, !hadPrev)
+		werr := doWrite(env.DB, ctx, api, key, rd, src)
+		bad := pl.finish()
+		cancel()
+		cwg.Wait()
+		fired := env.CutFired()
+		fault := "tcp-cut"
+		if cut[:6] == "cancel" {
+			fault = "ctx-cancel"
+		}
+		plan := map[string]any{"mode": "grpc", "api": api, "fault": fault, "cut": cut, "len": l, "had_previous": hadPrev, "cut_fired": fired, "iteration": n, "seed": seed}
+		c.Evals++
+		if !x.judge(plan, key, werr, src, prev, hadPrev, nil, "", bad) {
+			return c
+		}
+		c.AddDistinct(fmt.Sprintf("grpccut/%s/%s/prev=%v/ok=%v", api, cut, hadPrev, werr == nil))
+		c.Count("stream_setup_cuts", 1)
+		c.Count("stream_setup_cuts_that_failed_the_write", b2i(werr != nil))
+	}
+	if idx < 1 {
+		c.Sample = map[string]any{"plan": map[string]any{"cuts": []string{"first request byte", "first 2-600 request bytes", "all connections closed 0-400 us after the call started", "context cancelled when the source is exhausted, before the upload is completed", "context cancelled 1-2048 bytes before the end"}, "iterations": iters}}
+	}
+	return c
+}
+
+// heldReader passes the first hold bytes through and delivers the rest only after release is closed.
+type heldReader struct {
+	r       io.Reader
+	hold    int
+	n       int
+	release chan struct{}
+}
+
+func (h *heldReader) Read(p []byte) (int, error) {
+	if h.n >= h.hold {
+		<-h.release
+	} else if len(p) > h.hold-h.n {
+		p = p[:h.hold-h.n]
+	}
+	n, err := h.r.Read(p)
+	h.n += n
+	return n, err
 }
